@@ -33,7 +33,9 @@ ROLES = ('state', 'assigned', 'readonly', 'param', 'globalread', 'globaldecl', '
          # block, in the body of an enclosing loop; the parameter of a lambda inside a nested def whose body makes a call
          'exceptvar', 'afterblock', 'nestedlambdaparam',
          # the handler name of a try nested in the body of another handler
-         'nestedexceptvar')
+         'nestedexceptvar',
+         # a module global that the function reaches only through eval (its name occurs in no identifier of the source)
+         'evalglobal')
 BLOCKS = ('if', 'while', 'forbreak', 'forcontinue', 'retloop', 'nesteddef', 'lambda')
 _S = {'tier': 'quick'}
 
@@ -49,6 +51,8 @@ def items(tier, seed):
       for blk in BLOCKS:
         if role == 'nestedglobal' and blk not in ('nesteddef', 'lambda'):
           continue   # a global read only from a nested function / lambda body
+        if role == 'evalglobal' and blk in ('nesteddef', 'lambda'):
+          continue   # eval inside a nested function / lambda body sees other locals (C14's subject)
         yield (v, role, blk, None)
   if tier == 'thorough':
     for v in VOCAB:
@@ -84,6 +88,8 @@ def render(item, pid=0):
     use = ['q = (lambda %s: %s + 1)(q)' % (V, V)]
   elif role in ('exceptvar', 'afterblock', 'nestedlambdaparam', 'nestedexceptvar'):
     use = ['q = q * 10 + %d' % K()]
+  elif role == 'evalglobal':
+    use = ['t(%d, eval(%r) + q * 0)' % (K(), V)]
   if W:
     use = use + ['t(%d, %s)' % (K(), W)]
   ind = lambda ls: ['    ' + l for l in ls]
@@ -134,7 +140,7 @@ def render(item, pid=0):
     pre.append('%s = 6' % V)
   elif role == 'param':
     params = 'zo, d, %s=7' % V
-  elif role in ('globalread', 'nestedglobal'):
+  elif role in ('globalread', 'nestedglobal', 'evalglobal'):
     glob[V] = 70
   elif role == 'globaldecl':
     pre.insert(0, 'global %s' % V)
@@ -150,7 +156,7 @@ def render(item, pid=0):
     glob[V] = 'CALLABLE'
   if W:
     pre.append('%s = 4' % W)
-  ret = ['return (%d, q, %s)' % (pid, V if role not in ('fnname', 'globalcall', 'lambdaparam', 'nestedglobal', 'exceptvar', 'afterblock', 'nestedlambdaparam', 'nestedexceptvar') else 'q')]
+  ret = ['return (%d, q, %s)' % (pid, V if role not in ('fnname', 'globalcall', 'lambdaparam', 'nestedglobal', 'exceptvar', 'afterblock', 'nestedlambdaparam', 'nestedexceptvar', 'evalglobal') else 'q')]
   lines = ['def f(%s):' % params] + ['    ' + l for l in pre + body + post + ret]
   if role == 'closure':
     lines = ['def make():', '    %s = 3' % V] + ['    ' + l for l in lines] + ['    return f', 'f = make()']
